@@ -130,6 +130,37 @@ theorem C05_accepts_sound (ext : Ext) (obj field s key arg msg : Bytes) (b : Boo
   · exact sound_prefix ext obj field s arg msg b ⟨by decide, by decide, hb⟩ h
   · exact sound_suffix ext obj field s arg msg b ⟨by decide, by decide, hb⟩ h
 
+/-- `in` compares numbers (and bools) by their canonical rendering: for every value that `ToStr`
+renders — integers of any width in decimal, floats by their shortest round-trip text, bools as
+words — a clause is written exactly when that rendering is not among the options -/
+theorem C05_in_canonical_rendering (ext : Ext) (obj field arg msg : Bytes) (hb : BAR ∉ arg)
+    (os : List Bytes) (ho : options arg = some os) (tv : GoVal) (t : Bytes) (hts : tv.toStr = some t) :
+    ∃ run, builtin (b! "in") = some (.fn run) ∧
+      PGV.Proofs.Accepts.Verdict (run ext (mkText (b! "in") arg msg) obj field tv) (os.contains t) := by
+  refine ⟨_, rfl, ?_⟩
+  exact PGV.Proofs.Accepts.in_verdict_scalar ext obj field _ _ arg _
+    (PGV.Proofs.Accepts.parse_mkText _ arg msg ⟨by decide, by decide, hb⟩) (by decide) os ho tv t hts
+
+example : options (b! "(5/7/'0.1')") = some [b! "5", b! "7", b! "0.1"]
+    ∧ (GoVal.int 8 5).toStr = some (b! "5") ∧ (GoVal.uint 64 7).toStr = some (b! "7")
+    ∧ (GoVal.float 32 (.fin 13421773 (-27)) (b! "0.10000000149011612") (b! "0.1")).toStr = some (b! "0.1") := by decide
+
+/-- `unique` on a slice of numbers / strings / bools compares the canonical renderings: violated exactly
+when two of them coincide (`[]float64{0.1, 0.10}` is a duplicate, `[]string{"1", "01"}` is not) -/
+theorem C05_unique_canonical_rendering (ext : Ext) (text obj field tstr elemT : Bytes) (isNil : Bool) (es : GoVals)
+    (ts : List Bytes) (h : es.toList.mapM GoVal.toStr = some ts) :
+    ∃ run, builtin (b! "unique") = some (.fn run) ∧
+      PGV.Proofs.Accepts.Verdict (run ext text obj field (.slice tstr elemT isNil es)) (distinct ts) :=
+  ⟨_, rfl, PGV.Proofs.Accepts.unique_verdict_slice ext obj field text tstr elemT isNil es ts h⟩
+
+/-- `ints` on a slice: violated exactly when some element's rendering is not a run of digits
+(negative numbers, floats with a fraction, empty strings) -/
+theorem C05_ints_slice (ext : Ext) (text obj field tstr elemT : Bytes) (isNil : Bool) (es : GoVals)
+    (ts : List Bytes) (h : es.toList.mapM GoVal.toStr = some ts) :
+    ∃ run, builtin (b! "ints") = some (.fn run) ∧
+      PGV.Proofs.Accepts.Verdict (run ext text obj field (.slice tstr elemT isNil es)) (ts.all Spec.Lang.int) :=
+  ⟨_, rfl, PGV.Proofs.Accepts.ints_verdict_slice ext obj field text tstr elemT isNil es ts h⟩
+
 -- the hypothesis is satisfiable, with quoted options and a custom separator
 example : accepts (mkText (b! "in") (b! "(a/'b/c'/d)") (b! "one of them")) (b! "b/c") = some true
     ∧ accepts (mkText (b! "in") (b! "(a/'b/c'/d)") []) (b! "b") = some false
